@@ -275,7 +275,7 @@ bool Directory::exists(const String& dir)
 bool Directory::create(const String& dir)
 {
   String parent = File::getDirectoryName(dir);
-  if(parent != "." && !Directory::exists(parent))
+  if(parent != "." && !parent.isEmpty() && !Directory::exists(parent)) // the parent of "/x" is the root: nothing to create
   {
     if(!Directory::create(parent))
       return false;
